@@ -31,6 +31,7 @@ PROP = {
     "tests": [
         ("TestVFC09History", (400, 1500), {"steps": 40}),
         ("TestVFC09Concurrent", (120, 500)),
+        ("TestVFC09ResetVsFlush", (400, 3000)),
     ],
     "plain": ["TestVFC09Scenarios"],
     "shards": (4, 16),
